@@ -252,6 +252,7 @@ def r5d(ctx: Ctx) -> list[Ob]:
         inst = f"exponent-ramp[order={order}]"
         it = Interp(ctx.repo)
         it.ramp_products = []  # type: ignore[attr-defined]
+        zero_bad: list[str] = []
         st = State()
         try:
             built = list(it.construct(ClassV(c), [], {"in_shape": TupleV((IntV(K), IntV(DP1))), "num_folds": IntV(F), "order": mkint(order)}, st, Frame(init, 0)))
@@ -259,8 +260,13 @@ def r5d(ctx: Ctx) -> list[Ob]:
             for obj, s2 in built:
                 x = fresh_tensor(s2.norm_shape((F, K, DP1)))
                 for rv, s3 in it.call(fwd, [x], {}, s2, selfv=obj):
-                    # only the differentiating path (dp1 > order): the other one returns zeros
-                    if not isinstance(rv, TensorV) or s3.norm(rv.shape[-1]).as_int() == 1:
+                    # R5e: the constant-zero answer is for degree < order only (dp1 <= order), the case the declared shape's else-branch covers
+                    if isinstance(rv, TensorV) and rv.val is not None and rv.val[0][0] == "zeros@":
+                        s_try = s3.copy()
+                        if s_try.assume(("cmp", DP1 - Dim.const(order), ">")):  # the path admits dp1 > order
+                            zero_bad.append(" and ".join(s3.assumed[-3:]))
+                        continue
+                    if not isinstance(rv, TensorV):
                         continue
                     n_paths += 1
             prods = list(it.ramp_products)  # type: ignore[attr-defined]
@@ -270,6 +276,11 @@ def r5d(ctx: Ctx) -> list[Ob]:
         except (PathLimit, RecursionError):
             out.append(unres("R5d", c.qualname, inst, "path limit", fwd.loc))
             continue
+        zinst = f"zero-branch[order={order}]"
+        if zero_bad:
+            out.append(viol("R5d", c.qualname, zinst, f"forward returns the constant zero on a path where the polynomial has degree >= order (dp1 > order; path: {zero_bad[0]}): the derivative of order k of a degree-k polynomial is the constant k!*a_k, not 0", fwd.loc))
+        else:
+            out.append(ok("R5d", c.qualname, zinst, "the constant zero is returned only when dp1 <= order", fwd.loc))
         if not prods:
             out.append(unres("R5d", c.qualname, inst, "no product of a coefficient slice with an integer ramp was met (another formulation of the derivative): no verdict", fwd.loc))
             continue
